@@ -577,7 +577,8 @@ def call_contract(I, c, f, args, kwargs):
         for cls, cond in c.raises_list():
             b = I.path.fresh("raised_%s_%s" % (c.short.replace(".", "_"), cls), z3.BoolSort())
             if cond is not None:
-                I.path.assume(z3.Implies(b, I.eval_spec(cond, env)))
+                # the raise condition speaks about the state at the call (before `modifies` was havoc'd)
+                I.path.assume(z3.Implies(b, I.eval_spec(cond, snap)))
             if I.path.branch(b):
                 for nm, src in c.ensures_exc:
                     I.path.assume(I.eval_spec(src, env))
